@@ -56,7 +56,7 @@ void run_cvc(uint64_t seed, const sk_mask* mask, sk_result* out)
 	(void)mask;
 	sk_rng_seed(&r, seed);
 	sk_heap_reset(sk_u64(&r));
-	sk_rng_seed(&tape.r, sk_u64(&r)), tape.mode = 0, tape.calls = 0;
+	sk_rng_seed(&tape.r, sk_u64(&r)), tape.mode = 0, tape.calls = 0, tape.flip_call = 0;
 	depth = 1 + sk_below(&r, 3);
 	memset(A, 0, sizeof(A));
 	out->nops = 0;
